@@ -21,11 +21,12 @@ class FieldSpec:
 
 
 class Shapes:
-    def __init__(self, repo, classes, record_classes=(), extra_bases=None):
+    def __init__(self, repo, classes, record_classes=(), extra_bases=None, abstract=()):
         """classes: {clsname: {'fields': {attr: typestr | (typestr, opts)}, 'bases': [...]} }"""
         self.repo = repo
         self.decl = classes
         self.extra_bases = extra_bases or {}
+        self.abstract = set(abstract)
         RECORD_CLASSES.clear()
         RECORD_CLASSES.update(record_classes)
         self._ids = {}
@@ -65,7 +66,7 @@ class Shapes:
     def isinstance_term(self, term, cls):
         if cls == 'object':
             return z3.BoolVal(True)
-        ids = sorted(self.class_id(c) for c in self.subclasses(cls))
+        ids = sorted(self.class_id(c) for c in self.subclasses(cls) if c not in self.abstract)
         return z3.And(term != NONE, z3.Or(*[cls_of(term) == i for i in ids]))
 
     def exact_class_term(self, term, cls):
